@@ -157,6 +157,56 @@ func (e *Engine) registerIntrinsics() {
 }
 
 func intrNop(c *icall) { c.ret(nil) }
+
+var opaqueNamed = types.NewNamed(types.NewTypeName(0, nil, "verif.opaque", nil), types.NewStruct(nil, nil), nil)
+
+// opaqueOf builds an opaque non-nil value of static type t.
+func (e *Engine) opaqueOf(st *State, g *G, t types.Type, tag string) Value {
+	switch u := t.Underlying().(type) {
+	case *types.Pointer:
+		var v Value = Opaque{Tag: tag}
+		if _, ok := u.Elem().Underlying().(*types.Struct); ok {
+			func() {
+				defer func() {
+					if r := recover(); r != nil {
+						v = Opaque{Tag: tag}
+					}
+				}()
+				v = e.zero(u.Elem())
+			}()
+		}
+		return Ptr{Obj: st.alloc(g, v)}
+	case *types.Interface:
+		st.opaqueN++
+		return Iface{T: opaqueNamed, V: Opaque{Tag: tag, ID: 0}}
+	case *types.Tuple:
+		out := make(Tuple, u.Len())
+		for i := range out {
+			out[i] = e.opaqueOf(st, g, u.At(i).Type(), tag)
+		}
+		return out
+	case *types.Signature:
+		return &Closure{Builtin: "opaque-func:" + tag}
+	}
+	return e.zero(t)
+}
+
+func intrOpaque(c *icall) {
+	res := c.fn.Signature.Results()
+	switch res.Len() {
+	case 0:
+		c.ret(nil)
+	case 1:
+		c.ret(c.e.opaqueOf(c.st, c.g, res.At(0).Type(), c.fn.String()))
+	default:
+		c.ret(c.e.opaqueOf(c.st, c.g, res, c.fn.String()))
+	}
+}
+
+func vComparable(c *icall) {
+	iv, ok := c.args[0].(Iface)
+	c.ret(BoolC(ok && iv.T != nil && types.Comparable(iv.T)))
+}
 func intrNopTuple(c *icall) {
 	c.ret(Tuple{BV(64, 0), Iface{}})
 }
@@ -351,10 +401,12 @@ func init() {
 		"vBytes":          vBytes,
 		"vBytesEqual":     vBytesEqual,
 		"vYield":          intrNop,
+		"vNativeSettle":   intrNop,
 		"vIsEngine":       func(c *icall) { c.ret(TrueT) },
 		"vConcrete":       vConcrete,
 		"vTrace":          vTrace,
 		"vFail":           vFail,
+		"vComparable":     vComparable,
 	}
 }
 
@@ -445,6 +497,11 @@ func vAssert(c *icall) {
 		panic(abort{kind: "inconclusive", msg: "assertion " + id + ": solver returned unknown"})
 	}
 	f := &Failure{Kind: "assert", ID: id, Pos: c.e.posStr(c.curPos()), Stack: c.e.stackOf(c.g)}
+	if c.e.cfg.Debug {
+		for _, t := range c.st.pc {
+			f.Detail += t.String() + " ; "
+		}
+	}
 	f.Model = c.w.modelFor(c.st, neg)
 	panic(failReq{f})
 }
